@@ -157,6 +157,7 @@ type planOp struct {
 	Mid     int32  // artifact reads: pause between Artifact() returning and Write (same encoding)
 	BadAt   int    // vector parameters: index of the element of a rejected update that has the wrong type
 	Zip     bool   // http phases: GET /zip (every producer's artifact in one request) instead of one producer
+	ZipPick int    // seeded choice of the archive's files that are checked
 	ZipFail bool   // recorded: the /zip request died (no archive): legal only if some build fails in the model
 	Settle  bool   // sequential read issued after every client has finished
 }
@@ -332,7 +333,10 @@ func runHistory(c *run.Ctx, viaHTTP bool) run.Result {
 				default:
 					op.Mid = int32(5 + r.Intn(80*intensity))
 				}
-				op.Zip = viaHTTP && r.Intn(8) == 0
+				// GET /zip: its files share one long request interval, which is what makes a
+				// history expensive to check — a few per history, three files looked at per archive
+				op.Zip = viaHTTP && r.Intn(12) == 0
+				op.ZipPick = r.Intn(1 << 16)
 			}
 			mix[op.Kind]++
 			switch x := r.Intn(10); {
@@ -670,7 +674,22 @@ func runHistory(c *run.Ctx, viaHTTP bool) run.Result {
 		ops = append(ops, porcupine.Operation{ClientId: op.Client, Input: in, Call: op.Call, Output: out, Return: op.Ret})
 	}
 	unknown := false
+	t0 := time.Now() // evidence only: how expensive the checks were
 	result, info := porcupine.CheckOperationsVerbose(model(d, init), ops, 20*time.Second)
+	switch el := time.Since(t0); {
+	case el < 10*time.Millisecond:
+		res.Count("porcupine_checks_under_10ms", 1)
+	case el < 100*time.Millisecond:
+		res.Count("porcupine_checks_10_100ms", 1)
+	case el < time.Second:
+		res.Count("porcupine_checks_100ms_1s", 1)
+	default:
+		res.Count("porcupine_checks_over_1s", 1)
+		if dir := os.Getenv("C13_DEBUG_DIR"); dir != "" {
+			b, _ := json.Marshal(map[string]any{"phase": c.Phase, "case": c.Case, "graph": d, "init": init, "history": all, "seconds": time.Since(t0).Seconds()})
+			os.WriteFile(fmt.Sprintf("%s/slow-%s-%d.json", dir, c.Phase, c.Case), b, 0o644)
+		}
+	}
 	switch result {
 	case porcupine.Ok:
 		res.Count("porcupine_ok", 1)
